@@ -259,6 +259,18 @@ example : gtPeaks 3 [[10], [], [20, 21, 22], [30, 31]]
     = [[some 10, none, none], [none, none, none], [some 20, some 21, some 22], [some 30, some 31, none]] := by
   decide
 
+/-- **indices carried, single-instance**: every output row sits next to the indices of the frame it
+was computed from, whatever the batch. -/
+theorem single_indices_carried {τ ι : Type} (row : τ → β) (fidx vidx : τ → ι) (batch : List τ) :
+    singleRecords row fidx vidx batch = batch.map fun f => (fidx f, vidx f, row f) := by
+  simp [singleRecords, List.zip_map']
+
+/-- **indices carried, ground-truth peaks**: every frame's row block (its own matches, padded) sits
+next to its own indices. -/
+theorem gt_indices_carried {τ ι : Type} (maxInst : Nat) (batch : List (ι × ι × List τ)) :
+    gtRecords maxInst batch = batch.map fun f => (f.1, f.2.1, gtPad maxInst f.2.2) := by
+  simp [gtRecords, gt_peaks_per_frame, List.zip_map', List.map_map, Function.comp_def]
+
 /-! ### network mode -/
 
 /-- **forward_mode_eval**: a wrapper that forces eval mode runs the network in eval mode whatever
